@@ -316,7 +316,8 @@ int main(int argc, char** argv)
         return 0;
     }
 
-    make_heap_instances();
+    // (VERIF_NO_HEAP: the run-time construction needs a stack frame of hundreds of megabytes, which memcheck cannot follow)
+    if (!std::getenv("VERIF_NO_HEAP")) make_heap_instances();
 
     if (mode == "debug")
     {
